@@ -208,6 +208,55 @@ func init() {
 		}, sp
 	}})
 
+	// Q12 long backlog: 300 callbacks queued on one group behind a gate, another group waiting, and a further
+	// callback submitted to the busy group from inside its 130th callback.
+	reg(&Scenario{Name: "Q12", Horizon: 200000, Make: func(cfg Cfg) (func(), *Spec) {
+		const n = 300
+		sp := &Spec{Closes: -1, MustRun: []string{"G", "V1", "X"}}
+		for i := 1; i <= n; i++ {
+			sp.MustRun = append(sp.MustRun, fmt.Sprintf("B%03d", i))
+			if i > 1 && cfg.Group != "parallel" {
+				sp.Order = append(sp.Order, [2]string{fmt.Sprintf("B%03d", i-1), fmt.Sprintf("B%03d", i)})
+			}
+		}
+		if cfg.Group != "parallel" {
+			sp.Order = append(sp.Order, [2]string{fmt.Sprintf("B%03d", n), "X"})
+		}
+		return func() {
+			w := NewWorld(cfg)
+			sdone := make(chan struct{}, 1)
+			w.StartServe(sdone)
+			gate := make(chan struct{}, 1)
+			entered := make(chan struct{}, 1)
+			vsched.Note(Mon, "submit G")
+			w.S.WithGroup("free", func(*res.Service) {
+				vsched.Emit(Mon, "enter G g=free want=free")
+				vsched.Send(entered, struct{}{})
+				vsched.Recv(gate)
+				vsched.Emit(Mon, "exit G")
+			})
+			vsched.Note(Mon, "ret G ok")
+			vsched.Recv(entered)
+			for i := 1; i <= n; i++ {
+				i := i
+				id := fmt.Sprintf("B%03d", i)
+				vsched.Note(Mon, "submit "+id)
+				w.S.With(w.A("1"), func(r res.Resource) {
+					vsched.Emit(Mon, "enter "+id+" g="+r.Group()+" want="+w.RefGroup(r.ResourceName()))
+					if i == 130 {
+						w.With("X", w.A("1"))
+					}
+					vsched.Emit(Mon, "exit "+id)
+				})
+				vsched.Note(Mon, "ret "+id+" ok")
+			}
+			w.With("V1", w.A("2"))
+			vsched.Send(gate, struct{}{})
+			vsched.AwaitQuiescence()
+			vsched.Emit(Mon, "quiesced")
+		}, sp
+	}})
+
 	// Q10 chain: a group that is never idle for 700 callbacks, each one submitting the next from inside (the worker
 	// is always in the last queued callback when the next arrives; the queue slice grows and is reused).
 	reg(&Scenario{Name: "Q10", Horizon: 200000, Make: func(cfg Cfg) (func(), *Spec) {
